@@ -494,8 +494,55 @@ def lit_value(n):
 
 
 def short(path):
-    """last two path segments, for messages"""
+    """compact name for messages/keys: `Type::method` for impl methods, last two segments otherwise"""
     if path is None:
         return "?"
+    if path.startswith("<") and " as " in path:
+        self_ty = path[1:path.index(" as ")]
+        self_ty = self_ty.split("<")[0].split("::")[-1] or self_ty
+        self_ty = self_ty.strip("[]&")
+        return "%s::%s" % (self_ty, path.split("::")[-1])
     parts = path.split("::")
     return "::".join(parts[-2:])
+
+
+def pat_lits(pat):
+    """literal values (str/char/int/bool) a pattern matches explicitly; handles or-patterns and refs"""
+    out = []
+    st = [pat]
+    while st:
+        p = st.pop()
+        k = p.get("k")
+        if k in ("Ref", "Deref", "Box"):
+            st.append(p["p"])
+        elif k == "Or":
+            st.extend(p["ps"])
+        elif k == "PatExpr" and "lk" in p:
+            out.append(p.get("v"))
+        elif k == "Binding" and "sub" in p:
+            st.append(p["sub"])
+    return out
+
+
+def is_catch_all(pat):
+    while pat.get("k") in ("Ref", "Deref", "Box"):
+        pat = pat["p"]
+    return pat.get("k") == "Wild" or (pat.get("k") == "Binding" and "sub" not in pat)
+
+
+def lit_table(match):
+    """[(set of literals, has_guard, is_catch_all, arm)] for a match over literals"""
+    rows = []
+    for arm in match["arms"]:
+        rows.append((set(pat_lits(arm["pat"])), "guard" in arm, is_catch_all(arm["pat"]), arm))
+    return rows
+
+
+def matches_on_type(fn, ty):
+    """source-level matches whose scrutinee (peeled) type string equals ty, e.g. 'char', 'str'"""
+    return [n for n in fn.walk() if n.get("k") == "Match" and n.get("src") == "Normal"
+            and peel_ty(n["scrut"].get("t")) == ty]
+
+
+def str_lits_in(node):
+    return [n.get("v") for n in subnodes(node) if n.get("k") == "Lit" and n.get("lk") == "str"]
